@@ -141,10 +141,10 @@ PARENT_TEMPLATE = (
     r'\}'
 )
 
-RUN_ALL_TESTS = (
-    'boolgroupStart=true;result.testsStarted();'
-    'for(UtestShell*test=tests_;test!=NULLPTR;test=test->getNext()){'
-    'if(runInSeperateProcess_)test->setRunInSeperateProcess();'
+SEP_FLAG_LINE = 'if(runInSeperateProcess_)test->setRunInSeperateProcess();'
+LOOP_HEADER = 'boolgroupStart=true;result.testsStarted();for(UtestShell*test=tests_;test!=NULLPTR;test=test->getNext()){'
+RUN_ALL_TESTS_NOFLAG = (
+    LOOP_HEADER +
     'if(runIgnored_)test->setRunIgnored();'
     'if(groupStart){result.currentGroupStarted(test);groupStart=false;}'
     'result.countTest();'
@@ -154,10 +154,47 @@ RUN_ALL_TESTS = (
     'result.testsEnded();currentRepetition_++;'
 )
 
+
+def sep_flag_placement(reg):
+    """where runAllTests sets the per-test separate-process flag: 'everyTest' when the statement is
+    executed for every test before it is run, 'groupStartOnly' when it sits inside `if (groupStart)`"""
+    got, _ = normalise(function_body(reg, r"void\s+TestRegistry::runAllTests\s*\(\s*TestResult\s*&\s*result\s*\)\s*\{"))
+    if got.count(SEP_FLAG_LINE) != 1:
+        raise TranslateError("TestRegistry::runAllTests: expected exactly one `%s`: %s" % (SEP_FLAG_LINE, got))
+    pos = got.index(SEP_FLAG_LINE)
+    rest = got.replace(SEP_FLAG_LINE, "")
+    if rest != RUN_ALL_TESTS_NOFLAG:
+        raise TranslateError("TestRegistry::runAllTests changed shape: " + got)
+    gs_open = rest.index('if(groupStart){') + len('if(groupStart){')
+    gs_close = rest.index('}', gs_open)
+    run_block = rest.index('if(testShouldRun(test,result)){')
+    if gs_open <= pos <= gs_close:
+        return "groupStartOnly"
+    if len(LOOP_HEADER) <= pos <= run_block and not (gs_open - len('if(groupStart){') < pos < gs_close + 1):
+        return "everyTest"
+    raise TranslateError("TestRegistry::runAllTests: the separate-process flag is set at an unexpected place: " + got)
+
+
 RUN_ONE_TEST = (
     'hasFailed_=false;result.countRun();HelperTestRunInforunInfo(this,plugin,&result);'
     'if(isRunInSeperateProcess())PlatformSpecificSetJmp(helperDoRunOneTestSeperateProcess,&runInfo);'
     'elsePlatformSpecificSetJmp(helperDoRunOneTestInCurrentProcess,&runInfo);'
+)
+
+CLI_RUN_ALL = (
+    'initializeTestRun();size_tloopCount=0;size_tfailedTestCount=0;size_tfailedExecutionCount=0;'
+    'size_trepeatCount=arguments_->getRepeatCount();'
+    'if(arguments_->isListingTestGroupNames()){TestResulttr(*output_);registry_->listTestGroupNames(tr);return0;}'
+    'if(arguments_->isListingTestGroupAndCaseNames()){TestResulttr(*output_);registry_->listTestGroupAndCaseNames(tr);return0;}'
+    'if(arguments_->isListingTestLocations()){TestResulttr(*output_);registry_->listTestLocations(tr);return0;}'
+    'if(arguments_->isReversing())registry_->reverseTests();'
+    'if(arguments_->isShuffling()){output_->print("§0");output_->print(arguments_->getShuffleSeed());output_->print("§1");}'
+    'while(loopCount++<repeatCount){'
+    'if(arguments_->isShuffling())registry_->shuffleTests(arguments_->getShuffleSeed());'
+    'output_->printTestRun(loopCount,repeatCount);TestResulttr(*output_);registry_->runAllTests(tr);'
+    'failedTestCount+=tr.getFailureCount();if(tr.isFailure()){failedExecutionCount++;}'
+    '}'
+    'return(int)(failedTestCount!=0?failedTestCount:failedExecutionCount);'
 )
 
 HELPER_SEPARATE = (
@@ -187,6 +224,17 @@ def extract():
     msg_fork = c_unescape(lits[int(m.group("fork"))])
     msg_giveup = c_unescape(lits[int(m.group("giveup"))])
     msg_wait = c_unescape(lits[int(m.group("wait"))])
+    # the build variant without fork/waitpid/kill: the function that leaves its plugin parameter unnamed
+    nf = function_body(src, r"static\s+void\s+GccPlatformSpecificRunTestInASeperateProcess\s*\(\s*UtestShell\s*\*\s*shell\s*,"
+                            r"\s*TestPlugin\s*\*\s*,\s*TestResult\s*\*\s*result\s*\)\s*\{")
+    nf_norm, nf_lits = normalise(nf)
+    mnf = re.fullmatch(r'result->addFailure\(TestFailure\(shell,"§(\d+)"\)\);', nf_norm)
+    if not mnf:
+        raise TranslateError("the fork-less GccPlatformSpecificRunTestInASeperateProcess changed shape: " + nf_norm)
+    msg_nofork = c_unescape(nf_lits[int(mnf.group(1))])
+    guard = "#if !defined(CPPUTEST_HAVE_FORK) || !defined(CPPUTEST_HAVE_WAITPID) || !defined(CPPUTEST_HAVE_KILL)"
+    if re.sub(r"\s+", " ", guard) not in re.sub(r"\s+", " ", src):
+        raise TranslateError("the #if that selects the fork-less variant changed")
     # seams and wiring
     expect_body(src, r"static\s+pid_t\s+PlatformSpecificForkImplementation\s*\(\s*void\s*\)\s*\{", "returnfork();",
                 "PlatformSpecificForkImplementation")
@@ -208,10 +256,23 @@ def extract():
     expect_body(utest, r"void\s+UtestShell::setRunInSeperateProcess\s*\(\s*\)\s*\{", "isRunAsSeperateProcess_=true;",
                 "UtestShell::setRunInSeperateProcess")
     reg = strip_comments(read(REGISTRY))
-    expect_body(reg, r"void\s+TestRegistry::runAllTests\s*\(\s*TestResult\s*&\s*result\s*\)\s*\{", RUN_ALL_TESTS,
-                "TestRegistry::runAllTests")
+    placement = sep_flag_placement(reg)
+    expect_body(reg, r"bool\s+TestRegistry::endOfGroup\s*\(\s*UtestShell\s*\*\s*test\s*\)\s*\{",
+                "return(!test||!test->getNext()||test->getGroup()!=test->getNext()->getGroup());", "TestRegistry::endOfGroup")
     expect_body(reg, r"void\s+TestRegistry::setRunTestsInSeperateProcess\s*\(\s*\)\s*\{", "runInSeperateProcess_=true;",
                 "TestRegistry::setRunTestsInSeperateProcess")
+    cli = strip_comments(read("src/CppUTest/CommandLineTestRunner.cpp"))
+    cli_norm, _ = normalise(function_body(cli, r"void\s+CommandLineTestRunner::initializeTestRun\s*\(\s*\)\s*\{"))
+    if "if(arguments_->runTestsInSeperateProcess())registry_->setRunTestsInSeperateProcess();" not in cli_norm:
+        raise TranslateError("CommandLineTestRunner::initializeTestRun no longer forwards -p to the registry: " + cli_norm)
+    cla = strip_comments(read("src/CppUTest/CommandLineArguments.cpp"))
+    cla_norm, cla_lits = normalise(cla)
+    mp = re.search(r'elseif\(argument=="§(\d+)"\)runTestsAsSeperateProcess_=true;', cla_norm)
+    if not mp or cla_lits[int(mp.group(1))] != "-p":
+        raise TranslateError("CommandLineArguments::parse: `-p` no longer sets runTestsAsSeperateProcess_")
+    expect_body(cla, r"bool\s+CommandLineArguments::runTestsInSeperateProcess\s*\(\s*\)\s*const\s*\{",
+                "returnrunTestsAsSeperateProcess_;", "CommandLineArguments::runTestsInSeperateProcess")
+    expect_body(cli, r"int\s+CommandLineTestRunner::runAllTests\s*\(\s*\)\s*\{", CLI_RUN_ALL, "CommandLineTestRunner::runAllTests")
     res = strip_comments(read(RESULT))
     expect_body(res, r"void\s+TestResult::addFailure\s*\(\s*const\s+TestFailure\s*&\s*failure\s*\)\s*\{",
                 "output_.printFailure(failure);failureCount_++;", "TestResult::addFailure")
@@ -230,6 +291,10 @@ def extract():
     text += "def msgForkFailed : String := %s\n" % lean_str(msg_fork)
     text += "def msgWaitFailed : String := %s\n" % lean_str(msg_wait)
     text += "def msgEintrGiveUp : String := %s\n" % lean_str(msg_giveup)
+    text += "/-- the message of the build variant without fork/waitpid/kill -/\n"
+    text += "def msgNoFork : String := %s\n" % lean_str(msg_nofork)
+    text += "/-- where `TestRegistry::runAllTests` sets the per-test separate-process flag -/\n"
+    text += "def sepFlagPlacement : SepFlagPlacement := .%s\n" % placement
     text += "end Gen.SepProcC\n"
     return text
 
